@@ -11,6 +11,7 @@ Close Scope Q_scope.
 
 Lemma tie_qsel_test : forall ae qval v, Gen.Approval.QuotaSelector_test ae qval v = fulfills ae v qval.
 Proof. intros ae qval v. unfold Gen.Approval.QuotaSelector_test. q_bool. Qed.
+Print Assumptions tie_qsel_test.
 
 Lemma tie_qsel_over_quota : forall quota ae votes n,
   Gen.Approval.QuotaSelector_over_quota quota ae votes n =
@@ -20,6 +21,7 @@ Proof.
   change (py_sum_values votes) with (qsumv votes).
   apply filter_ext. intros [c v]. cbn [fst snd]. q_bool.
 Qed.
+Print Assumptions tie_qsel_over_quota.
 
 (* the model's selector, restated through the generated dictionary *)
 Lemma tie_qsel_evaluate : forall quota ae select votes n,
@@ -28,6 +30,7 @@ Lemma tie_qsel_evaluate : forall quota ae select votes n,
     if (n <? Z.of_nat (length over))%Z && negb select then QS_vse
     else QS_ok (get_n_best Qle_bool over (Z.to_nat n)).
 Proof. intros. cbv zeta. rewrite tie_qsel_over_quota. reflexivity. Qed.
+Print Assumptions tie_qsel_evaluate.
 
 Theorem GenTie_Approval :
   (forall ae qval v, Gen.Approval.QuotaSelector_test ae qval v = fulfills ae v qval) /\
@@ -40,4 +43,3 @@ Example gen_qsel_on_quota :
 Proof. split; reflexivity. Qed.
 
 Print Assumptions GenTie_Approval.
-Print Assumptions tie_qsel_evaluate.
